@@ -6,6 +6,16 @@ import os
 VERIF = os.path.dirname(os.path.dirname(os.path.abspath(__file__)))
 
 CHECKS = {
+    "C18": {
+        "text": "Fault enumeration of every (member index, record index) abort point: groups of 1-3 (thorough 4) members with the aborting member at "
+        "every index, two error kinds, 'raise' configured by validation-mode comment or by config policy, files of 2-4 (8) records, all "
+        "six run methods; after the exception escapes the archive is checked against the statement (readable files, aborting error with "
+        "line number, completed false, earlier members complete per the C09 model, run manifest not complete, stores byte-identical) and "
+        "one further run on the same instance must archive normally into a new directory.",
+        "design": "3 / C18",
+        "note": "trusted: models/refarchive.py; policies contain 'collect'; known finding KF-C18-1 (abort on the file's final record says completed true)",
+        "technique": "exhaustive fault-position enumeration (every abort point x run method) on the real run methods with archive invariants and a follow-up run",
+    },
     "C09": {
         "text": "Every ordered group of 1-2 (thorough 3) members from a 12-member alphabet (variables, tracking dicts, stacks, printers to default and "
         "named streams, fail, stop, errors under collect, unmatched-mode keep, return-mode no-matches, with/without ids) x 7 (10) files with "
